@@ -62,6 +62,7 @@ func zzvC04Scenarios() []zzvC04Scn {
 	big2 := zzvBig('C')
 	// a short name and two 4000-byte names that share one bucket
 	kk := zzvCollideN(1)
+	kk3 := zzvCollideN(3)[1:]
 	var bigK []string
 	for i := 0; len(bigK) < 2; i++ {
 		n := fmt.Sprintf("K%05d/%s", i, strings.Repeat("k", 4000))[:4000]
@@ -82,6 +83,10 @@ func zzvC04Scenarios() []zzvC04Scn {
 		{name: "P9-three-procs-same-name", preOpen: true, procs: [][]zzvOp4{{A("a", 1)}, {A("a", 2)}, {A("a", 4)}}, thorough: true},
 		{name: "P10-three-procs-colliding", preOpen: true, procs: [][]zzvOp4{{A(k1, 1)}, {A(k2, 2)}, {A(k1, 4)}}, thorough: true},
 		{name: "P11-create-race-three", procs: [][]zzvOp4{{open, A("a", 1)}, {open, A("b", 2)}, {open, A("a", 4)}}, thorough: true},
+		// Two records join proc1's chain while it is between reserving and linking: an older one inside its
+		// mapping that is linked last (so it is scanned first), and one in a new page, scanned second
+		{name: "P14-second-new-chain-element-beyond-mapping", preOpen: true, fill: 3, thorough: true,
+			procs: [][]zzvOp4{{A(kk3[0], 1)}, {A(kk3[1], 2)}, {A(bigK[0], 4)}}},
 		// A's colliding chain grows twice beyond A's mapping while A is between reserving and linking its
 		// record: once into page 2 (B's first big record), and, after A's retry, into page 3
 		{name: "P13-chain-head-beyond-mapping-twice", preOpen: true, fill: 3, thorough: true,
@@ -405,9 +410,16 @@ func TestVerifC04(t *testing.T) {
 	if p.Thorough() {
 		bounds = append(bounds, sched.Bounds{Preempt: 3, Kill: 1}, sched.Bounds{Preempt: 2, Kill: 2})
 	}
+	only := os.Getenv("VERIF_ONLY") // debugging aid: explore one scenario (the result is then marked not exhaustive)
 	for _, scn := range zzvC04Scenarios() {
 		scn := scn
-		if scn.thorough && !p.Thorough() {
+		if only != "" {
+			if !strings.Contains(scn.name, only) {
+				continue
+			}
+			res.Exhaustive = false
+			res.Note("VERIF_ONLY=%s: only matching scenarios were explored", only)
+		} else if scn.thorough && !p.Thorough() {
 			continue
 		}
 		for _, b := range bounds {
